@@ -138,6 +138,9 @@ func NewBuild(want ...string) *Build {
 		harnessFail("copy inst: %v", err)
 	}
 	os.MkdirAll(filepath.Join(dir, "bin"), 0755)
+	if len(want) > 0 {
+		instrumentLibs(filepath.Join(b.Inst, "pkg"))
+	}
 	for _, w := range want {
 		switch w {
 		case "fc":
@@ -173,44 +176,35 @@ func (b *Build) Close() {
 	os.RemoveAll(b.Dir)
 }
 
-const tickSrcFc = `package main
-
-import (
-	"time"
-
-	"github.com/karino2/folang/pkg/dict"
-	"github.com/karino2/folang/pkg/sys"
-)
-
-// Logical clock of the deterministic simulation: one tick per function entry and loop iteration.
-var verifTicks int64
-var verifBudget int64
-
-func verifTick() {
-	verifTicks++
-	if verifBudget > 0 && verifTicks > verifBudget {
-		sys.VerifBudgetExceeded()
+// tickSource builds verif_tick.go for a main package that imports the given folang library packages.
+func tickSource(libs []string) string {
+	var imp, hook strings.Builder
+	hasDict := false
+	for _, l := range libs {
+		if l == "sys" {
+			continue
+		}
+		fmt.Fprintf(&imp, "\t\"github.com/karino2/folang/pkg/%s\"\n", l)
+		if l == "dict" {
+			hasDict = true
+		}
+		if instrumentedLibs[l] {
+			fmt.Fprintf(&hook, "\t%s.VerifTick = verifTick\n", l)
+		}
 	}
-}
-
-func verifDone() { sys.VerifDone() }
-
-func init() {
-	sys.VerifNow = func() int64 { return verifTicks }
-	dict.VerifNow = sys.VerifNow
-	verifBudget = sys.VerifTickBudget()
-	verifNsPerTick = sys.VerifNsPerTick()
-}
-` + tickClockSrc
-
-const tickSrcNoDict = `package main
+	if hasDict {
+		hook.WriteString("\tdict.VerifNow = sys.VerifNow\n")
+	}
+	return `package main
 
 import (
 	"time"
 
-	"github.com/karino2/folang/pkg/sys"
+` + imp.String() + `	"github.com/karino2/folang/pkg/sys"
 )
 
+// Logical clock of the deterministic simulation: one tick per function entry and loop iteration, in package main
+// and in the folang library packages it imports.
 var verifTicks int64
 var verifBudget int64
 
@@ -227,8 +221,67 @@ func init() {
 	sys.VerifNow = func() int64 { return verifTicks }
 	verifBudget = sys.VerifTickBudget()
 	verifNsPerTick = sys.VerifNsPerTick()
-}
+` + hook.String() + `}
 ` + tickClockSrc
+}
+
+// instrumentedLibs: library packages whose functions and loops tick as well (pkg/sys is the seam itself).
+var instrumentedLibs = map[string]bool{"buf": true, "dict": true, "frt": true, "slice": true, "strings": true}
+
+// instrumentLibs inserts VerifTick() at the head of every function and loop body of the library packages of the
+// scratch copy and gives each package a VerifTick variable (a no-op until the instrumented program sets it), so a
+// loop that does not terminate inside a library function exhausts the step budget like one in the program itself.
+func instrumentLibs(pkgRoot string) {
+	for lib := range instrumentedLibs {
+		dir := filepath.Join(pkgRoot, lib)
+		ents, err := os.ReadDir(dir)
+		if err != nil {
+			continue
+		}
+		pkgName := ""
+		for _, e := range ents {
+			name := e.Name()
+			if e.IsDir() || !strings.HasSuffix(name, ".go") || strings.HasSuffix(name, "_test.go") || strings.Contains(name, "_verif") {
+				continue
+			}
+			path := filepath.Join(dir, name)
+			fset := token.NewFileSet()
+			f, err := parser.ParseFile(fset, path, nil, 0)
+			if err != nil {
+				harnessFail("instrument: parse %s: %v", path, err)
+			}
+			pkgName = f.Name.Name
+			ast.Inspect(f, func(n ast.Node) bool {
+				switch x := n.(type) {
+				case *ast.FuncDecl:
+					if x.Body != nil {
+						x.Body.List = append([]ast.Stmt{tickCall("VerifTick")}, x.Body.List...)
+					}
+				case *ast.FuncLit:
+					x.Body.List = append([]ast.Stmt{tickCall("VerifTick")}, x.Body.List...)
+				case *ast.ForStmt:
+					x.Body.List = append([]ast.Stmt{tickCall("VerifTick")}, x.Body.List...)
+				case *ast.RangeStmt:
+					x.Body.List = append([]ast.Stmt{tickCall("VerifTick")}, x.Body.List...)
+				}
+				return true
+			})
+			var buf bytes.Buffer
+			if err := format.Node(&buf, fset, f); err != nil {
+				harnessFail("instrument: print %s: %v", path, err)
+			}
+			if err := os.WriteFile(path, buf.Bytes(), 0644); err != nil {
+				harnessFail("instrument: write %s: %v", path, err)
+			}
+		}
+		if pkgName != "" {
+			src := "package " + pkgName + "\n\n// VerifTick is the logical clock of the deterministic simulation (set by the instrumented program).\nvar VerifTick = func() {}\n"
+			if err := os.WriteFile(filepath.Join(dir, "zz_verif_tick.go"), []byte(src), 0644); err != nil {
+				harnessFail("instrument: %v", err)
+			}
+		}
+	}
+}
 
 // tickClockSrc: the simulated wall clock. Calls to time.Now / Since / Until / Sleep in package main are redirected
 // here by the rewriter, so any deadline or timestamp in the program reads simulated time: ticks x the scenario's
@@ -260,6 +313,7 @@ func instrumentDir(dir string, usesDict bool) {
 		harnessFail("instrument: %v", err)
 	}
 	nFuncs, nLoops := 0, 0
+	libsImported := map[string]bool{}
 	for _, e := range ents {
 		name := e.Name()
 		if e.IsDir() || !strings.HasSuffix(name, ".go") || strings.HasSuffix(name, "_test.go") {
@@ -273,6 +327,11 @@ func instrumentDir(dir string, usesDict bool) {
 		}
 		if f.Name.Name != "main" {
 			continue
+		}
+		for _, im := range f.Imports {
+			if strings.HasPrefix(im.Path.Value, `"github.com/karino2/folang/pkg/`) {
+				libsImported[strings.TrimSuffix(strings.TrimPrefix(im.Path.Value, `"github.com/karino2/folang/pkg/`), `"`)] = true
+			}
 		}
 		ast.Inspect(f, func(n ast.Node) bool {
 			switch x := n.(type) {
@@ -321,10 +380,7 @@ func instrumentDir(dir string, usesDict bool) {
 			harnessFail("instrument: write %s: %v", path, err)
 		}
 	}
-	src := tickSrcNoDict
-	if usesDict {
-		src = tickSrcFc
-	}
+	src := tickSource(sortedKeys(libsImported))
 	if err := os.WriteFile(filepath.Join(dir, "verif_tick.go"), []byte(src), 0644); err != nil {
 		harnessFail("instrument: %v", err)
 	}
